@@ -43,7 +43,7 @@ pub fn shape_class(shape: &str) -> &'static str {
     if shape.starts_with("randnest:") {
         return "block";
     }
-    if shape.starts_with("wide-") || shape == "flow-closed-200" {
+    if shape.starts_with("wide-") || shape == "flow-closed-200" || shape.starts_with("family:") {
         return "wide";
     }
     match shape {
@@ -96,6 +96,10 @@ pub fn text_for(shape: &str, d: usize) -> String {
     let mut s = String::new();
     if let Some(seed) = shape.strip_prefix("randnest:") {
         return rand_nest(seed.parse().unwrap_or(0), d);
+    }
+    if let Some(fam) = shape.strip_prefix("family:") {
+        // every input family of the instruction clock, `d` = size in bytes
+        return crate::scale::render(fam, d);
     }
     match shape {
         "wide-seq" => {
@@ -627,6 +631,15 @@ fn grid(cfg: &Config) -> Vec<Scn> {
             for d in ds {
                 v.push(Scn { shape: shape.into(), depth: d, api: api.into() });
             }
+        }
+    }
+    // every repeated top-level construct (the instruction clock's input families), long and flat:
+    // the pull interface on the small stack, the push interface and one full life cycle on 8 MiB
+    for fam in crate::scale::FAMILIES {
+        let shape = format!("family:{fam}");
+        let size = if thorough { 1_000_000 - r.usize(100_000) } else { 200_000 - r.usize(20_000) };
+        for api in ["iter@256k", "peeknext@256k", "load", "roundtrip:Yaml", "roundtrip:MarkedYamlOwned"] {
+            v.push(Scn { shape: shape.clone(), depth: size, api: api.into() });
         }
     }
     // pull interface on a small stack, also at depth 10^6 where the text stays linear in size
